@@ -9,6 +9,7 @@ the run in progress (original and rebuilt machine are driven one after the other
 from . import common  # noqa: F401  (puts the repo under test on sys.path)
 
 from transitions.extensions.markup import MarkupMachine, HierarchicalMarkupMachine
+from transitions.extensions.diagrams import GraphMachine, HierarchicalGraphMachine
 
 TRUTH = {}
 RECORDER = {'log': None, 'machine': None}
@@ -60,6 +61,22 @@ class HierMM(HierarchicalMarkupMachine):
         if name.startswith('cb') and name[2:].isdigit():
             return _synth(self, name)
         return super(HierMM, self).__getattr__(name)
+
+
+class FlatGM(GraphMachine):
+    """markup-bearing machine with diagram support (GraphMachine derives from MarkupMachine)"""
+
+    def __getattr__(self, name):
+        if name.startswith('cb') and name[2:].isdigit():
+            return _synth(self, name)
+        return super(FlatGM, self).__getattr__(name)
+
+
+class HierGM(HierarchicalGraphMachine):
+    def __getattr__(self, name):
+        if name.startswith('cb') and name[2:].isdigit():
+            return _synth(self, name)
+        return super(HierGM, self).__getattr__(name)
 
 
 MODEL_CLASSES = {'A': ModelA, 'B': ModelB}
